@@ -213,6 +213,14 @@ class VttContext:
       self._paragraphs.pop()
       self._captions_counter -= 1
 
+  def process_div(self, region: ISD.Region, div: model.Div, begin: Fraction, end: Optional[Fraction]):
+    """Process div element, which contains p and div elements"""
+    for child in list(div):
+      if isinstance(child, model.Div):
+        self.process_div(region, child, begin, end)
+      else:
+        self.process_p(region, child, begin, end)
+
   def add_isd(self, isd: ISD, begin: Fraction, end: Optional[Fraction]):
     """Converts and appends ISD content to VTT content"""
 
@@ -239,8 +247,7 @@ class VttContext:
 
       for body in region:
         for div in list(body):
-          for p in list(div):
-            self.process_p(region, p, begin, end)
+          self.process_div(region, div, begin, end)
 
     if is_isd_empty:
       LOGGER.debug("Skipping empty paragraph.")
